@@ -427,6 +427,49 @@ def eval_pair(t, env):
     return None
 
 
+def accumulate_form(ctx):
+    """`return std::accumulate(L.begin(), L.end(), 0, [..](acc, elem) { ...; return acc + E; })`: the fold form of an
+    accumulation loop.  Returns (call node, list term, lambda Function, acc param, elem param, [(return node, E)]) or None."""
+    f = ctx.fn
+    for n in f.nodes:
+        if n['k'] != 'CallExpr':
+            continue
+        t = ctx.tt.t(n['i'])
+        if t[0] != 'call' or t[1] != 'std::accumulate' or len(t[2]) != 4:
+            continue
+        b, e, init, lam = t[2]
+        while lam[0] in ('ctor', 'cast') and lam[2]:
+            lam = lam[2][0] if lam[0] == 'ctor' else lam[2]
+        if not (b[0] == 'mcall' and b[1].endswith(('::begin', '::cbegin')) and e[0] == 'mcall' and
+                e[1].endswith(('::end', '::cend')) and b[2] == e[2] and lam[0] == 'lambda'):
+            return None
+        i0 = strip_cast(init)
+        while i0[0] in ('ctor', 'cast') and i0[2]:
+            i0 = strip_cast(i0[2][0] if i0[0] == 'ctor' else i0[2])
+        if i0 != ('int', 0):
+            return None
+        L = f.unit.function_for_decl(lam[1])
+        if L is None or len(L.params) != 2:
+            return None
+        ltt = Ctx(ctx.m, L)
+        acc, elem = ('var', L.params[0]), ('var', L.params[1])
+        steps = []
+        for r in L.nodes:
+            if r['k'] != 'ReturnStmt' or not L.children(r['i']):
+                continue
+            rt = strip_cast(ltt.unconst(ltt.resolve(ltt.tt.t(L.children(r['i'])[0]))))
+            if rt[0] == 'bin' and rt[1] == '+' and strip_cast(rt[2]) == acc:
+                steps.append((r, strip_cast(rt[3])))
+            elif rt[0] == 'bin' and rt[1] == '+' and strip_cast(rt[3]) == acc:
+                steps.append((r, strip_cast(rt[2])))
+            else:
+                return None
+        if not steps or any(acc in subterms(x) for _, x in steps):
+            return None
+        return n, b[2], L, ltt, acc, elem, steps
+    return None
+
+
 def rule_selfloop_convention(m):
     """F-ORD.iii: the degree / matrix increment is 2 (x multiplicity) iff loop and countSelfLoopsTwice, else 1."""
     res = RuleResult('F-ORD.iii', 'undirected degree / adjacency-matrix increments count a self-loop twice exactly when '
@@ -444,6 +487,63 @@ def rule_selfloop_convention(m):
                 if n['k'] in ('CompoundAssignOperator', 'BinaryOperator') and n.get('op') == '+=':
                     incs.append(n)
             res.sites += 1
+            fold = accumulate_form(ctx) if not incs and tn.endswith('::getDegree') else None
+            if fold is not None:
+                # the fold form: one step per element, E evaluated inside the function object; the call itself must be
+                # reached under the same valuation (an early `return size()` for flag=false stays as in the loop form)
+                calln, lst, L, lctx, acc, elem, fsteps = fold
+                eqs = []
+                for rn, E in fsteps:
+                    eqs += [st for st in subterms(E) if st[0] == 'bin' and st[1] in ('==', '!=')]
+                    for dep in L.region(rn['i']):
+                        a0 = L.branch_atom(dep[0])
+                        if a0 is not None:
+                            eqs += [st for st in subterms(lctx.unconst(lctx.resolve(lctx.tt.t(a0)))) if st[0] == 'bin' and st[1] in ('==', '!=')]
+                eqs = [e for e in eqs if elem in (strip_cast(e[2]), strip_cast(e[3]))]
+                pairs = {frozenset((strip_cast(e[2]), strip_cast(e[3]))) for e in eqs}
+                if len(pairs) != 1:
+                    res.broken('F-ORD.iii: increment of %s has no loop test' % f.display())
+                    continue
+                a, b = strip_cast(eqs[0][2]), strip_cast(eqs[0][3])
+                mults = set()
+                for rn, E in fsteps:
+                    mults |= {st for st in subterms(E) if (st[0] == 'var' and st not in (a, b, flags[0])) or
+                              (st[0] == 'mcall' and st[1].endswith(('::getEdgeLabel', '::getEdgeMultiplicity')))}
+                bad = None
+                for flag in (True, False):
+                    for (va, vb) in ORDERINGS:
+                        env = {a: va, b: vb, flags[0]: flag}
+                        for mt in mults:
+                            env[mt] = 1
+                        outer = path_eval(ctx, calln['i'], env)
+                        if outer is None:
+                            bad = 'undecidable'
+                            continue
+                        if not outer:
+                            if flag:
+                                bad = bad or 'increment not reached with countSelfLoopsTwice=true'
+                            continue
+                        total, hit = 0, 0
+                        for rn, E in fsteps:
+                            reach = path_eval(lctx, rn['i'], env)
+                            v = eval_order(E, env) if reach else 0
+                            if reach is None or v is None:
+                                bad = 'undecidable'
+                            elif reach:
+                                hit += 1
+                                total += int(v)
+                        want = 2 if (va == vb and flag) else 1
+                        if bad != 'undecidable' and (hit != 1 or total != want):
+                            bad = 'loop=%s, countSelfLoopsTwice=%s: adds %s, expected %s' % (va == vb, flag, total, want)
+                if bad == 'undecidable':
+                    res.broken('F-ORD.iii: increment of %s cannot be evaluated over the order domain' % f.display())
+                elif bad:
+                    res.fail(Finding('F-ORD.iii', f.display(), 'self-loop convention', f.nloc(calln['i']),
+                                     'self-loop counting deviates from the documented convention: ' + bad))
+                else:
+                    res.ok(dict(function=f.display(), increment=L.expr_text(fsteps[0][0]['i'])[:90], cases=6, form='std::accumulate'),
+                           fn=f.display())
+                continue
             if len(incs) == 0 and tn.endswith('::getDegree'):
                 # closed form: flag off -> size of the list; flag on -> size + number of occurrences of the vertex itself
                 v = ('var', f.params[0])
@@ -1366,7 +1466,12 @@ def rule_observers(m):
                                 if rt[0] == 'bin' and rt[1] == '+' and acc in (strip_cast(rt[2]), strip_cast(rt[3])) and strip_cast(i0) in (('int', 0), ('ctor', 'unsigned long', (('int', 0),))) or \
                                         (rt[0] == 'bin' and rt[1] == '+' and acc in (strip_cast(rt[2]), strip_cast(rt[3]))):
                                     other = strip_cast(rt[3]) if strip_cast(rt[2]) == acc else strip_cast(rt[2])
-                                    if other[0] == 'mcall' and other[1].endswith(('::getEdgeMultiplicity', '::getEdgeLabel')) and other[3][:2] == (src, nb):
+                                    lc = Ctx(m, L)
+                                    other = lc.unconst(lc.resolve(other))
+                                    reads = [st for st in subterms(other) if st[0] == 'mcall' and
+                                             st[1].endswith(('::getEdgeMultiplicity', '::getEdgeLabel'))]
+                                    if reads and all(st[3][:2] == (src, nb) or (f.record in UNDIRECTED_FAMILY and st[3][:2] == (nb, src))
+                                                     for st in reads):
                                         ok = True
                     if fact[0] == 'label_loop':
                         src = P0
@@ -1828,7 +1933,6 @@ def rule_forwarding(m):
                 calls.append((nid, g, seq))
         if not calls:
             continue
-        reciprocal = f.name.startswith('addReciprocal')
         ordered = []
         reversed_ = []
         for nid, g, seq in calls:
@@ -1839,6 +1943,10 @@ def rule_forwarding(m):
                 reversed_.append(nid)
             else:
                 reversed_.append(nid)
+        # a reciprocal operation: the same callee applied once to (a,b) and then once to (b,a), whatever its name
+        by_nid = {nid: g for nid, g, seq in calls}
+        reciprocal = f.name.startswith('addReciprocal') or (
+            len(ordered) == 1 and len(reversed_) == 1 and by_nid[ordered[0]].key == by_nid[reversed_[0]].key)
         for nid, g, seq in calls:
             res.sites += 1
             is_rev = nid in reversed_
